@@ -41,6 +41,8 @@ theorem cond_congr (c : Cond) (d e : Env) (h : ∀ x ∈ c.vars, lookup d x = lo
   induction c with
   | strIn x s cs => simp [Cond.eval, h x (by simp [Cond.vars])]
   | pos x => simp [Cond.eval, h x (by simp [Cond.vars])]
+  | posDec x => simp [Cond.eval, h x (by simp [Cond.vars])]
+  | bit x m => simp [Cond.eval, h x (by simp [Cond.vars])]
   | not c ih => simp [Cond.eval, ih h]
   | and a b iha ihb =>
     simp only [Cond.vars, List.mem_append] at h
@@ -57,6 +59,12 @@ theorem expr_congr (a : Expr) (d e : Env) (h : ∀ x ∈ a.vars, lookup d x = lo
     simp only [Expr.vars, List.mem_append] at h
     simp [Expr.eval, iha (fun x hx => h x (Or.inl hx)), ihb (fun x hx => h x (Or.inr hx))]
   | ceilDiv a k ih => simp [Expr.eval, ih h]
+  | sub a b iha ihb =>
+    simp only [Expr.vars, List.mem_append] at h
+    simp [Expr.eval, iha (fun x hx => h x (Or.inl hx)), ihb (fun x hx => h x (Or.inr hx))]
+  | div a k ih => simp [Expr.eval, ih h]
+  | dec x => simp [Expr.eval, h x (by simp [Expr.vars])]
+  | be x => simp [Expr.eval, h x (by simp [Expr.vars])]
   | ite c a b iha ihb =>
     simp only [Expr.vars, List.mem_append] at h
     simp [Expr.eval, cond_congr c d e (fun x hx => h x (Or.inl hx)),
@@ -183,6 +191,23 @@ theorem dec_str (s : Bool) (d : Env) {w : Nat} {x : Bytes} (rest : Bytes) (h : a
   simp only [dec, if_neg (not_short hl), take_pre hl, drop_pre hl, decStr_encStr h, h, beq_self_eq_true,
     Bool.and_self, chk_true]
 
+theorem acceptTStr_iff {w : Nat} {x : Bytes} : acceptTStr w x = true ↔ acceptStr w x = true ∧ lstrip x = x := by
+  simp [acceptTStr]
+
+/-- Python `strip()` undoes the blank padding of a value without leading / trailing blanks -/
+theorem strip_encStr {w : Nat} {x : Bytes} (h : acceptTStr w x = true) : strip (encStr w x) = x := by
+  obtain ⟨h1, h2⟩ := acceptTStr_iff.mp h
+  have := decStr_encStr h1
+  simp only [decStr] at this
+  simp only [strip, this, h2]
+
+theorem dec_tstr (s : Bool) {n : Expr} (d : Env) {w : Nat} (hn : n.eval d = w) {x : Bytes} (rest : Bytes)
+    (h : acceptTStr w x = true) :
+    dec s (.tstr n) d (encStr w x ++ rest) = some (.str x, rest) := by
+  have hl := encStr_length (acceptTStr_iff.mp h).1
+  simp only [dec, hn, if_neg (not_short hl), take_pre hl, drop_pre hl, strip_encStr h, h, beq_self_eq_true,
+    Bool.and_self, chk_true]
+
 theorem dec_bin (s : Bool) (d : Env) {w n : Nat} (rest : Bytes) (h : n < 256 ^ w) :
     dec s (.bin w) d (encBin w n ++ rest) = some (.nat n, rest) := by
   have hl := encBin_length w n
@@ -266,6 +291,12 @@ theorem dec_enc (strict : Bool) (f : Fmt) : ∀ (sc : List Name) (d e : Env) (v 
     intro sc d e v rest _ _ _ ha
     cases v <;> simp only [acc] at ha <;> try (exact absurd ha (by decide))
     exact dec_str strict d rest ha
+  | tstr n =>
+    intro sc d e v rest hw hag _ ha
+    cases v <;> simp only [acc] at ha <;> try (exact absurd ha (by decide))
+    simp only [wf] at hw
+    simp only [enc]
+    exact dec_tstr strict d (expr_agree hw hag) rest ha
   | raw n =>
     intro sc d e v rest hw hag hb ha
     cases v <;> simp only [acc] at ha <;> try (exact absurd ha (by decide))
@@ -364,6 +395,10 @@ theorem enc_length (f : Fmt) : ∀ (e : Env) (v : Val), acc f e v = true → (en
     intro e v ha
     cases v <;> simp only [acc] at ha <;> try (exact absurd ha (by decide))
     simpa [enc, len] using encStr_length ha
+  | tstr n =>
+    intro e v ha
+    cases v <;> simp only [acc] at ha <;> try (exact absurd ha (by decide))
+    simpa [enc, len] using encStr_length (acceptTStr_iff.mp ha).1
   | raw n =>
     intro e v ha
     cases v <;> simp only [acc] at ha <;> try (exact absurd ha (by decide))
@@ -498,6 +533,19 @@ theorem dec_strict_sound (f : Fmt) : ∀ (sc : List Name) (d e : Env) (bs : Byte
       obtain ⟨rfl, rfl⟩ := hr
       refine ⟨by simpa [acc] using hok.1, ?_⟩
       simp only [enc, hok.2, List.take_append_drop]
+  | tstr n =>
+    intro sc d e bs v rest hw hag _ hd
+    simp only [dec] at hd
+    simp only [wf] at hw
+    have hn := expr_agree hw hag
+    split at hd
+    · exact absurd hd (by simp)
+    · obtain ⟨hok, hr⟩ := chk_strict_some hd
+      simp only [Bool.and_eq_true, beq_iff_eq] at hok
+      simp only [Option.some.injEq, Prod.mk.injEq] at hr
+      obtain ⟨rfl, rfl⟩ := hr
+      refine ⟨by simpa [acc, ← hn] using hok.1, ?_⟩
+      simp only [enc, ← hn, hok.2, List.take_append_drop]
   | raw n =>
     intro sc d e bs v rest hw hag _ hd
     simp only [dec] at hd
@@ -639,6 +687,12 @@ theorem dec_strict_lenient (f : Fmt) : ∀ (d : Env) (bs : Bytes) (r : Val × By
       | none => simp [hv] at h
       | some v => simp only [hv] at h ⊢; exact chk_strict_lenient h
   | str w =>
+    intro d bs r h
+    simp only [dec] at h ⊢
+    split at h
+    · exact absurd h (by simp)
+    · rename_i hs; rw [if_neg hs]; exact chk_strict_lenient h
+  | tstr n =>
     intro d bs r h
     simp only [dec] at h ⊢
     split at h
